@@ -585,6 +585,10 @@ def run_check(plugin, tier, seed, replay=None):
         "broken_obligations": [b["kind"] + ":" + str(b["what"]) for b in broken],
         "known_findings_reproduced": sorted(set(list(known_hits) + [f for f in known if f in witnesses])),
     })
+    if cov["discharged"] != cov["obligations"] or cov["obligations"] == 0:
+        # not a valid proof-level record: keep the numbers under other names (generic fallback keys remain)
+        cov["obligations_stated"] = cov.pop("obligations")
+        cov["obligations_discharged"] = cov.pop("discharged")
     if hasattr(plugin, "extra_coverage"):
         try:
             cov.update(plugin.extra_coverage(cases, results))
